@@ -124,7 +124,7 @@ def run(tier, seed, t0):
              "through Wire.tla's append / offer / would-block / clear arithmetic. non-trivial = the session saw a "
              "short write or a would-block; distinct = distinct (program, schedule)"
              % (", 4087..9000 bytes = up to 3 body frames at frame_max 4096", len(cases),
-                "; 3000 random cycles" if thorough else ""),
+                "; 8000 random cycles" if thorough else ""),
         samples=summ["samples"], verdict=v, exhaustive=False,
         extra={"trace_records_validated": consumed, "sessions": summ["evaluations"],
                "sessions_hung": summ["hung"], "sessions_not_clean": summ["unclean"],
